@@ -603,7 +603,7 @@ def discrete_SIR(G, test_transmission=_simple_test_transmission_, args=(), test_
     nR = number_recovered
     nS = N - nI - nR
     
-    while infecteds and t[-1]<tmax:
+    while infecteds and t[-1]+1<=tmax: #the step that ends at t[-1]+1 is only taken if it does not pass tmax
         new_infecteds = set()
         
         infector = {}  #used for returning full data.  a waste of time otherwise
@@ -863,7 +863,7 @@ def basic_discrete_SIS(G, p, initial_infecteds=None, rho = None,
     I = [len(initial_infecteds)]
     
     infecteds = set(initial_infecteds)
-    while infecteds and t[-1]<tmax:
+    while infecteds and t[-1]+1<=tmax: #the step that ends at t[-1]+1 is only taken if it does not pass tmax
         new_infecteds = set()
         infector={}
         for u in infecteds:
